@@ -36,6 +36,12 @@ class SimDeadlock(RuntimeError):
     """Every task is blocked: the program under test deadlocked in this schedule."""
 
 
+class StepLimitExceeded(BaseException):
+    """A run executed far more traced steps than any run of the unchanged tree
+    needs (deterministic hang detection: a function of the schedule, not of
+    wall time)."""
+
+
 class SimHang(BaseException):
     """The main task waited (in real time) far longer than any run of the
     unchanged tree needs: some task never gave the baton back."""
@@ -82,6 +88,8 @@ class Kernel:
         self.step_cap = None
         self.cap_hit = False
         self.hung = False
+        self.hang_limit = None
+        self.lib_scope = None
         self.now = 0.0  # simulated seconds (used only for waits with timeouts / sleep)
         self.counters = {"lib_threads_started": 0, "deadlocks": 0, "timeouts_fired_early": 0, "timeouts_by_idle": 0,
                          "blocks": 0, "lock_contention": 0, "unsimulated_concurrency": 0}
@@ -99,7 +107,7 @@ class Kernel:
         self.by_ident[_thread.get_ident()] = t
         return t
 
-    def begin_run(self, policy, scope, step_cap=None, fault_seed=0, timeout_fire_p=0.0):
+    def begin_run(self, policy, scope, step_cap=None, fault_seed=0, timeout_fire_p=0.0, hang_limit=None, lib_scope=None):
         """Start a recorded run (one op).  Tasks from earlier runs are dropped
         if finished."""
         self.tasks = [t for t in self.tasks if not t.done or t.is_main]
@@ -116,6 +124,8 @@ class Kernel:
         self.step_cap = step_cap
         self.cap_hit = False
         self.hung = False
+        self.hang_limit = hang_limit
+        self.lib_scope = frozenset(lib_scope) if lib_scope else None
 
     def current(self):
         return self.by_ident.get(_thread.get_ident())
@@ -158,6 +168,9 @@ class Kernel:
     def preempt_point(self, task, frame):
         self.n += 1
         task.steps += 1
+        if self.hang_limit is not None and self.n > self.hang_limit:
+            self.hang_limit = None  # raise once
+            raise StepLimitExceeded(f"more than {self.n - 1} traced steps")
         if self.cap_hit:
             return
         if self.step_cap is not None and self.n > self.step_cap:
@@ -167,7 +180,10 @@ class Kernel:
         runnable = self._runnable()
         if len(runnable) < 2:
             return
-        nxt = self.policy.at_step(self.n, task.idx, runnable)
+        if getattr(self.policy, "wants_site", False):
+            nxt = self.policy.at_step(self.n, task.idx, runnable, (frame.f_code.co_filename, frame.f_lineno))
+        else:
+            nxt = self.policy.at_step(self.n, task.idx, runnable)
         if nxt != task.idx:
             self.decisions.append([self.n, nxt])
             self.switches += 1
@@ -310,7 +326,9 @@ class Kernel:
 
         _thread.start_new_thread(body, ())
         ready.acquire()  # the thread exists and is parked (or about to park) on its gate
-        # make sure the spawning task is traced from now on, so that it has pre-emption points too
+        # from now on the spawning task needs pre-emption points in the library scope too
+        if self.lib_scope is not None and not self.lib_scope <= self.scope:
+            self.scope = self.scope | self.lib_scope
         cur = self.current()
         if cur is not None:
             self.trace_current(cur)
@@ -319,13 +337,12 @@ class Kernel:
     def trace_current(self, task):
         """Install the tracer on the calling thread, including frames that are
         already on the stack."""
-        if sys.gettrace() is not None:
-            return
         glob, local = self._make_tracer(task)
-        sys.settrace(glob)
+        if sys.gettrace() is None:
+            sys.settrace(glob)
         f = sys._getframe(1)
         while f is not None:
-            if f.f_code.co_filename in self.scope and f.f_code.co_name != "<module>":
+            if f.f_trace is None and f.f_code.co_filename in self.scope and f.f_code.co_name != "<module>":
                 f.f_trace = local
             f = f.f_back
 
